@@ -5,7 +5,8 @@ PROP = {
     "oracle_prefix": "C13",
     "streams": [{"name": "broker", "harness": "umh_broker", "driver": "broker",
                  "timeout": {"quick": 900, "thorough": 6000}},
-                {"name": "recover", "harness": "umh_recover", "driver": "broker"}],  # the shared thorough stream needs ~15 min unloaded, far more when
+                {"name": "recover", "harness": "umh_recover", "driver": "broker"},
+                {"name": "http", "harness": "umh_http", "driver": "broker"}],  # the shared thorough stream needs ~15 min unloaded, far more when
                                                                  # several broker checks run concurrently
     "search_s": 300,
     "assumptions": [
